@@ -485,12 +485,26 @@ func (s *Session) quiescent() bool {
 	}
 }
 
+// harnessHelper: goroutines of the harness itself that sleep and wake up for
+// ever without touching the code under test (the stall detector of package ev).
+func harnessHelper(g GInfo) bool {
+	for _, f := range g.Frames {
+		if strings.Contains(f, "verifharness/ev.watchStalls") {
+			return true
+		}
+	}
+	return false
+}
+
 func (s *Session) allParked() bool {
 	for _, g := range Snapshot() {
 		if g.ID == s.ctlGID {
 			continue
 		}
 		if g.State == "syscall" && len(g.Frames) > 0 && strings.Contains(g.Frames[0], "os/signal") {
+			continue
+		}
+		if harnessHelper(g) {
 			continue
 		}
 		if !g.parked() {
